@@ -188,7 +188,9 @@ def corpus(prop: str, repo: str, jobs: int = 16) -> dict:
 _PROBE_REL = "hypergraphx/_verif_lint_probe.py"
 _PROBE_SRC = '''
 import numpy as np
+from collections import Counter
 from itertools import groupby
+from hypergraphx import Hypergraph, TemporalHypergraph
 
 
 def stale(pairs, s):
@@ -271,6 +273,66 @@ def default_arg_ok(x, acc=None):
     acc = [] if acc is None else acc
     acc.append(x)
     return acc
+
+
+def keyproj(th: TemporalHypergraph):
+    buckets = {}
+    for time, edge in th.get_edges():
+        buckets[edge] = th.get_weight(edge, time)
+    return buckets
+
+
+def keyproj_ok(th: TemporalHypergraph):
+    buckets = {}
+    for time, edge in th.get_edges():
+        buckets[(time, edge)] = th.get_weight(edge, time)
+    return buckets
+
+
+def owner(hg, edges):
+    h = Hypergraph(weighted=True)
+    for e in edges:
+        h.add_edge(e, hg._weights[h._edge_list[e]])
+    return h
+
+
+def owner_ok(hg, edges):
+    h = Hypergraph(weighted=True)
+    for e in edges:
+        h.add_edge(e, hg._weights[hg._edge_list[e]])
+    return h
+
+
+def counter_add(maps):
+    res = Counter()
+    for m in maps:
+        res += Counter({k: v for k, v in m.items()})
+    return dict(res)
+
+
+def counter_update(maps):
+    res = Counter()
+    for m in maps:
+        res.update(m)
+    return dict(res)
+
+
+def loop_shared(edges):
+    reach = {}
+    for src, tgt in edges:
+        targets = set(tgt)
+        for n in src:
+            reach.setdefault(n, targets).update(targets)
+    return reach
+
+
+def loop_shared_ok(edges):
+    reach = {}
+    for src, tgt in edges:
+        targets = set(tgt)
+        for n in src:
+            reach.setdefault(n, set()).update(targets)
+    return reach
 '''
 
 _PROBE_EXPECT = {
@@ -287,6 +349,14 @@ _PROBE_EXPECT = {
     "liveiter_break": ("G-LIVEITER", False),
     "default_arg": ("E-DEFAULTARG", True),
     "default_arg_ok": ("E-DEFAULTARG", False),
+    "keyproj": ("G-KEYPROJ", True),
+    "keyproj_ok": ("G-KEYPROJ", False),
+    "owner": ("K-OWNER", True),
+    "owner_ok": ("K-OWNER", False),
+    "counter_add": ("G-COUNTERADD", True),
+    "counter_update": ("G-COUNTERADD", False),
+    "loop_shared": ("E-SHARED", True),
+    "loop_shared_ok": ("E-SHARED", False),
 }
 
 
@@ -298,7 +368,7 @@ def lint_pack_controls(repo: str) -> dict:
     from .effects import check_shared_literals
     from .report import Result
 
-    fns = {"G-STALE": L.check_stale_in_loop, "G-REUSE": L.check_iterator_reuse, "N-FANCYAUG": L.check_fancy_augassign, "G-GROUPBY": L.check_groupby_sorted, "E-SHARED": check_shared_literals, "G-LIVEITER": L.check_mutation_while_iterating, "E-DEFAULTARG": L.check_mutable_defaults}
+    fns = {"G-STALE": L.check_stale_in_loop, "G-REUSE": L.check_iterator_reuse, "N-FANCYAUG": L.check_fancy_augassign, "G-GROUPBY": L.check_groupby_sorted, "E-SHARED": check_shared_literals, "G-LIVEITER": L.check_mutation_while_iterating, "E-DEFAULTARG": L.check_mutable_defaults, "G-KEYPROJ": L.check_key_projection, "K-OWNER": L.check_id_owner, "G-COUNTERADD": L.check_counter_arith}
     ctx = Ctx(repo, "quick", overrides={_PROBE_REL: _PROBE_SRC})
     out = {"controls": [], "broken": []}
     for name, (rule, must) in _PROBE_EXPECT.items():
